@@ -79,26 +79,28 @@ type routesFile struct {
 // ---- the node
 
 type node struct {
-	w       *nk.World
-	dir     string
-	db      *dbutil.DB
-	v       *visor.Visor
-	ws      *wallet.Service
-	d       *daemon.Daemon
-	kv      *kvstorage.Manager
-	srv     *httptest.Server
-	panics  *panicLog
-	blocks  []coin.SignedBlock
-	spent   []coin.UxOut       // outputs spent by confirmed transactions
-	unspent []coin.UxOut       // outputs unspent at the head (not used by the pool)
-	pooled  []coin.Transaction // unconfirmed transactions
-	confTx  []coin.Transaction // confirmed transactions
-	wallets []string           // wallet ids (file names)
-	encWlt  string
-	wltAddr []cipher.Address
-	abandon bool
-	r       *Rng
-	when    uint64
+	w        *nk.World
+	dir      string
+	db       *dbutil.DB
+	v        *visor.Visor
+	ws       *wallet.Service
+	d        *daemon.Daemon
+	kv       *kvstorage.Manager
+	srv      *httptest.Server
+	panics   *panicLog
+	blocks   []coin.SignedBlock
+	spent    []coin.UxOut       // outputs spent by confirmed transactions
+	unspent  []coin.UxOut       // outputs unspent at the head (not used by the pool)
+	pooled   []coin.Transaction // unconfirmed transactions
+	confTx   []coin.Transaction // confirmed transactions
+	wallets  []string           // wallet ids (file names)
+	encWlt   string
+	wltAddr  []cipher.Address
+	abandon  bool
+	xpubAddr []cipher.Address
+	collWlt  string
+	r        *Rng
+	when     uint64
 }
 
 type panicLog struct {
@@ -138,6 +140,9 @@ func (p *panicLog) take(id string) (string, bool) {
 	delete(p.last, id)
 	return s, ok
 }
+
+// an account-level extended public key (the one the repository's own tests use)
+const testXPub = "xpub6CkxdS1d4vNqqcnf9xPgqR5e2jE2PZKmKSw93QQMjHE1hRk22nU4zns85EDRgmLWYXYtu62XexwqaET33XA28c26NbXCAUJh1xmqq6B3S2v"
 
 const seedPhrase = "chief stadium sniff exhibit ostrich exit fruit noodle good lava coin supply"
 
@@ -186,6 +191,29 @@ func newNode(r *Rng) (*node, error) {
 	}
 	n.wallets = append(n.wallets, w2.Filename())
 	n.encWlt = w2.Filename()
+	// a watch-only (xpub) wallet, a bip44 wallet, and a collection wallet that holds the same key twice
+	if w3, err := n.ws.CreateWallet("xpub.wlt", wallet.Options{Type: wallet.WalletTypeXPub, XPub: testXPub, Label: "xpub", GenerateN: 2}); err == nil {
+		n.wallets = append(n.wallets, w3.Filename())
+		if as, err := w3.GetAddresses(); err == nil {
+			for _, a := range as {
+				if sa, ok := a.(cipher.Address); ok {
+					n.xpubAddr = append(n.xpubAddr, sa)
+				}
+			}
+		}
+	} else {
+		return nil, fmt.Errorf("create xpub wallet: %v", err)
+	}
+	if w4, err := n.ws.CreateWallet("bip44.wlt", wallet.Options{Type: wallet.WalletTypeBip44, Seed: strings.Repeat("abandon ", 11) + "about", Label: "bip44", GenerateN: 2}); err == nil {
+		n.wallets = append(n.wallets, w4.Filename())
+	}
+	if w5, err := n.ws.CreateWallet("coll.wlt", wallet.Options{Type: wallet.WalletTypeCollection, Label: "dup keys",
+		CollectionPrivateKeys: []cipher.SecKey{w.Keys[1], w.Keys[2], w.Keys[1]}}); err == nil {
+		n.wallets = append(n.wallets, w5.Filename())
+		n.collWlt = w5.Filename()
+	} else {
+		return nil, fmt.Errorf("create collection wallet: %v", err)
+	}
 
 	// visor (block publisher) on its own bolt file
 	bdb, err := bolt.Open(filepath.Join(n.dir, "data.db"), 0600, &bolt.Options{Timeout: 2 * time.Second})
@@ -227,6 +255,9 @@ func newNode(r *Rng) (*node, error) {
 		addr := w.Addrs[r.Intn(nk.NKeys-1)]
 		if i < 3 && len(n.wltAddr) > i {
 			addr = n.wltAddr[i]
+		}
+		if i >= 3 && i < 5 && len(n.xpubAddr) > i-3 { // the watch-only wallet holds coins too
+			addr = n.xpubAddr[i-3]
 		}
 		coins := uint64(1+r.Intn(50)) * 1000000
 		outs = append(outs, coin.TransactionOutput{Address: addr, Coins: coins, Hours: uint64(10 + r.Intn(2000))})
@@ -883,8 +914,8 @@ var endpoints = map[string]endpoint{
 	"/api/v1/wallet/seed":                   {params: []field{{"id", "wallet"}, {"password", "password"}}},
 	"/api/v2/wallet/seed/verify":            {body: []field{{"seed", "seed"}}},
 	"/api/v1/wallet/unload":                 {params: []field{{"id", "wallet"}}},
-	"/api/v1/wallet/encrypt":                {params: []field{{"id", "wallet"}, {"password", "password"}}},
-	"/api/v1/wallet/decrypt":                {params: []field{{"id", "wallet"}, {"password", "password"}}},
+	"/api/v1/wallet/encrypt":                {params: []field{{"id", "walletfast"}, {"password", "password"}}},
+	"/api/v1/wallet/decrypt":                {params: []field{{"id", "walletfast"}, {"password", "password"}}},
 	"/api/v2/wallet/recover":                {body: []field{{"id", "wallet"}, {"seed", "seed"}, {"seed_passphrase", "string"}, {"password", "password"}}},
 	"/api/v1/blockchain/metadata":           {},
 	"/api/v1/blockchain/progress":           {},
@@ -925,6 +956,15 @@ func (g *gen) paramVal(kind string) string {
 	switch kind {
 	case "wallet":
 		return g.walletID()
+	case "walletfast":
+		// encrypt / decrypt: only wallets whose file says sha256-xor.  The other wallet
+		// types take the default scrypt (N=2^20: 1 GiB and seconds per call, much more on a
+		// loaded machine) and hold the wallet lock meanwhile, which the watchdog cannot
+		// tell from a hang
+		if g.r.Chance(60) {
+			return g.pick([]string{"plain.wlt", g.n.encWlt})
+		}
+		return g.pick([]string{"nonexistent.wlt", "", "../plain.wlt", g.long(), g.garbage()})
 	case "seed":
 		return g.seed()
 	case "password":
@@ -1399,10 +1439,44 @@ func run(args []string) error {
 			get(p)
 		}
 		get("/api/v1/richlist", "include-distribution", "1")
+		// the same address more than once in one request
+		if len(addrs) >= 2 {
+			for _, dup := range []string{addrs[0] + "," + addrs[0], addrs[0] + "," + addrs[0] + "," + addrs[1], addrs[1] + "," + addrs[0] + "," + addrs[1] + "," + addrs[0]} {
+				get("/api/v1/balance", "addrs", dup)
+				get("/api/v1/outputs", "addrs", dup)
+				modes(func(vb, cf string) {
+					kv := []string{"addrs", dup}
+					if vb != "" {
+						kv = append(kv, "verbose", vb)
+					}
+					if cf != "" {
+						kv = append(kv, "confirmed", cf)
+					}
+					get("/api/v1/transactions", kv...)
+					get("/api/v2/transactions", kv...)
+				})
+			}
+			if len(uxids) > 0 {
+				get("/api/v1/outputs", "hashes", uxids[0]+","+uxids[0])
+			}
+		}
 		for _, wl := range n.wallets {
+			get("/api/v1/wallet", "id", wl)
 			get("/api/v1/wallet/balance", "id", wl)
 			get("/api/v1/wallet/transactions", "id", wl)
 			get("/api/v1/wallet/transactions", "id", wl, "verbose", "1")
+			// create-transaction, signed and unsigned, with and without a password, from every kind of wallet
+			for _, unsigned := range []bool{true, false} {
+				for _, pw := range []string{"", "pw"} {
+					body := map[string]interface{}{"wallet_id": wl, "unsigned": unsigned,
+						"hours_selection": map[string]interface{}{"type": "auto", "mode": "share", "share_factor": "0.5"},
+						"to":              []interface{}{map[string]interface{}{"address": n.w.Addrs[3].String(), "coins": "0.001"}}}
+					if pw != "" {
+						body["password"] = pw
+					}
+					postJSON("/api/v1/wallet/transaction", body)
+				}
+			}
 		}
 	}
 
@@ -1416,6 +1490,44 @@ func run(args []string) error {
 	}
 	// phase B: 7 blocks, one transaction in the pool
 	sweep("chain of 7 blocks")
+
+	// phase B2: wallets with a repeated key made purely through the API
+	{
+		form := func(path string, v url.Values) obs {
+			rt, ok := routeOf(path)
+			if !ok {
+				return obs{}
+			}
+			return exec("requests", rt, reqSpec{method: "POST", path: path, ctype: "application/x-www-form-urlencoded", body: v.Encode(), note: "duplicate-key collection wallet through the API"})
+		}
+		k1, k2 := n.w.Keys[3].Hex(), n.w.Keys[4].Hex()
+		ob := form("/api/v1/wallet/create", url.Values{"type": {"collection"}, "label": {"api dup"}, "private-keys": {k1 + "," + k2 + "," + k1}})
+		var cr struct {
+			Meta struct {
+				Filename string `json:"filename"`
+			} `json:"meta"`
+		}
+		if ob.kind == "status" && ob.status == 200 && json.Unmarshal(ob.raw, &cr) == nil && cr.Meta.Filename != "" {
+			n.wallets = append(n.wallets, cr.Meta.Filename)
+		}
+		// a key the wallet already holds, added again
+		form("/api/v1/wallet/newAddress", url.Values{"id": {n.collWlt}, "private-keys": {n.w.Keys[2].Hex()}})
+		form("/api/v1/wallet/newAddress", url.Values{"id": {n.collWlt}, "private-keys": {n.w.Keys[2].Hex() + "," + n.w.Keys[2].Hex()}})
+		// counts that do not fit an int (newAddress converts num with int(num))
+		for _, wl := range []string{"plain.wlt", "bip44.wlt", "xpub.wlt", n.collWlt} {
+			for _, num := range []string{"18446744073709551615", "9223372036854775808", "4294967296"} {
+				if wl == "plain.wlt" && num == "4294967296" {
+					continue // a valid huge count: the unbounded_count finding
+				}
+				form("/api/v1/wallet/newAddress", url.Values{"id": {wl}, "num": {num}})
+			}
+		}
+		if rt, ok := routeOf("/api/v1/wallet/balance"); ok {
+			for _, wl := range n.wallets {
+				exec("requests", rt, reqSpec{method: "GET", path: rt.Path, query: url.Values{"id": {wl}}, note: "wallet balance after duplicate keys"})
+			}
+		}
+	}
 
 	// phase C: CONFLICTING transactions in the pool.  Injection only checks a
 	// transaction against the confirmed unspent set, so the pool takes several
@@ -1564,7 +1676,7 @@ func run(args []string) error {
 			exec("requests", rt, reqSpec{method: "POST", path: path, ctype: "application/json", body: string(b), note: note})
 		}
 		type wl struct{ id, pw string }
-		wallets := []wl{{"plain.wlt", ""}, {n.encWlt, "pw"}, {n.encWlt, "wrong"}, {"nonexistent.wlt", ""}}
+		wallets := []wl{{"plain.wlt", ""}, {n.encWlt, "pw"}, {n.encWlt, "wrong"}, {"nonexistent.wlt", ""}, {"xpub.wlt", ""}, {n.collWlt, ""}, {"bip44.wlt", ""}}
 		for _, sk := range skews {
 			raw, err := sk.t.Serialize()
 			if err != nil {
